@@ -55,4 +55,24 @@ PROPS["C11"] = dict(
                "is executed by the thorough tier in child processes.",
 )
 
+PROPS["C16"] = dict(
+    modules=["Hub.Props.C16"],
+    gens=["c16"],
+    rule="(a) the real doAclCheck over 7 methods x 7 paths x all ACL lists of size <=1 and a stride of size 2 (thorough: all of size 2 plus sampled size 3) "
+         "drawn from 9 resources x {read,write} x {allow,deny}; (b) every (method,route) of the registered echo router (path parameters "
+         "instantiated) x 11 token kinds (absent, malformed, expired, wrong key, wrong issuer, wrong audience, RS384, HS256 signed with the public key, "
+         "alg none, admin, client) x 6 ACL shapes for the client token, served in-process through all middlewares; non-trivial = non-admin with a "
+         "resource-matching entry (a) / non-skipped path and non-admin token (b); distinct = distinct input",
+    trusted=["signature verification and claim validation of golang-jwt (tokens are really signed and parsed in the tie, abstract in the theorem)",
+             "echo routing; OPA path (not configured) is outside the model"],
+    assumptions=["a token without aud/iss claim passes the audience/issuer check (VerifyAudience(x,false)); stated in authn_decision, see DESIGN"],
+    exhaustive=True,
+    level_text="Proof: the ACL decision equals its specification for every method, path and ACL list of any length (acl_decision: some applicable "
+               "allow and no applicable deny; deny_overrides; read_never_mutates), the authentication decision implies signature, expiry, RS256 and "
+               "accepted issuer/audience (authn_decision), FilterDatasets lists each granted dataset once (dataset_list_filter). The decision code's "
+               "shape is re-extracted from authorization.go / manager.go / authentication.go / middleware.go on every run (facts_shape) and the real "
+               "router with all middlewares is enumerated exhaustively over routes x token defects and compared with the model.",
+    level_note="Trusted: Lean kernel; factgen; golang-jwt cryptography; echo. Persistence of clients/ACLs across restart is decided under C14.",
+)
+
 NOT_YET = {}
